@@ -160,8 +160,8 @@ def run(ctx):
         run_model(ctx, "n4", [3, 3, 2, 2])
         run_model(ctx, "n4b", [4, 3, 2, 1], product=False)
         run_model(ctx, "n5", [1, 1, 1, 1, 1], product=False)
-        # all 1.7 M pairs are checked by TLC; one sixteenth (chosen by fingerprint and seed) is replayed
-        run_model(ctx, "n4pairs", [3, 3, 2, 2], depth=2, product=False, mod=16)
+        # all 1.7 M pairs are checked by TLC; 1 in 32 (chosen by fingerprint and seed) is replayed
+        run_model(ctx, "n4pairs", [3, 3, 2, 2], depth=2, product=False, mod=32)
     return ctx.finish(rule="one case = one abstract vote / certificate of the signature algebra (honest message, "
                            "single alteration, pair of alterations, or element of the full product of vote fields) "
                            "with the spec's verdict; distinct = distinct wire messages")
